@@ -1,6 +1,7 @@
 from sa.selftest.harness import M, T
 
 F = "sharepoint2text/parsing/extractors/util/omml_to_latex.py"
+OM = "sharepoint2text/parsing/extractors/util/omml_to_latex.py"
 MUTANTS = [
     M("nary-get-without-default", F, 'chr_elem.get(f"{M_NS}val", "\\u2211")', 'chr_elem.get(f"{M_NS}val")', "C19-NULL"),
     M("delimiter-none", F, 'beg_chr.get(f"{M_NS}val", "(")', 'beg_chr.get(f"{M_NS}val")', "C19-NULL"),
@@ -15,6 +16,7 @@ MUTANTS = [
     M("pop-unguarded-index", F, "if pending_sqrt_close and pending_sqrt_close[-1] in converted:", "if pending_sqrt_close[-1] in converted:", "C19-TOTAL"),
     M("recursion-on-self", F, "            den_text = process_element(den)", "            den_text = process_element(elem)", "C19-REC"),
     M("consume-wrong-slice", F, "outside = converted[idx + 1 :]", "outside = converted[idx:]", "C19-LIN"),
+    M("run-text-nfkc", OM, '            text = elem.text or ""\n', '            import unicodedata\n            text = unicodedata.normalize("NFKC", elem.text or "")\n', "C19-LIN"),
 ]
 TWINS = [
     T("rename-operand", F, '            base = elem.find(f"{M_NS}e")\n            sup = elem.find(f"{M_NS}sup")\n            base_text = process_element(base)\n            sup_text = process_element(sup)\n            return f"{base_text}^{{{sup_text}}}"', '            b = elem.find(f"{M_NS}e")\n            s = elem.find(f"{M_NS}sup")\n            bt = process_element(b)\n            st = process_element(s)\n            return f"{bt}^{{{st}}}"'),
@@ -32,5 +34,7 @@ SEEDED = [
     ("C19-3", "C19-TOTAL"),
     ("C19-4", "C19-NULL"),
     ("C19-5", "C19-LIN"),
+    ("C19-6", "C19-LIN"),
+    ("C19-7", "C19-REC"),
 ]
 MUTANTS = list(MUTANTS) + [_P("seed-" + sid, _os.path.join(_SEEDS, sid, "patch.diff"), rule) for sid, rule in SEEDED if _os.path.exists(_os.path.join(_SEEDS, sid, "patch.diff"))]
